@@ -2,6 +2,7 @@ package c02
 
 import (
 	"image"
+	"math"
 
 	"github.com/reactivego/ivg/decode"
 	"github.com/reactivego/ivg/encode"
@@ -16,6 +17,7 @@ var _ = vp.Reg("Header", H_Header)
 var _ = vp.Reg("Prefix", H_Prefix)
 var _ = vp.Reg("IntoRenderer", H_IntoRenderer)
 var _ = vp.Reg("IntoEncoder", H_IntoEncoder)
+var _ = vp.Reg("Gate", H_Gate)
 
 // Every harness marks the input read-only; panics on any feasible path and
 // out-of-range reads are obligations raised by the executor itself.
@@ -130,4 +132,49 @@ func H_IntoEncoder() {
 	_, err2 := e.Bytes()
 	vp.Reach("decoded")
 	vp.Assert(vp.Implies(err == nil, err2 == nil), "an accepted stream can be fed to an Encoder without error")
+}
+
+// H_Gate: nothing is delivered unless every metadata chunk is valid: a
+// viewBox chunk with coordinates of freely chosen widths (one or two of them
+// 1, 2 or 4 arbitrary bytes, the rest arbitrary 1-byte forms) followed by
+// one instruction; whenever anything is delivered the box is finite and not
+// inverted, and the first call is Reset with exactly that box.
+func H_Gate() {
+	hot := vp.Choice("hot", 4)
+	width := 1 << vp.Choice("width", 3)
+	two := vp.Choice("two", 2) == 1
+	var body []byte
+	for j := 0; j < 4; j++ {
+		if j == hot || (two && j == (hot+2)%4) {
+			x := vp.Bytes("wide", width)
+			want := byte(0)
+			if width == 2 {
+				want = 1
+			} else if width == 4 {
+				want = 3
+			}
+			vp.Assume(x[0]&3 == want || (width == 1 && x[0]&1 == 0))
+			body = append(body, x...)
+		} else {
+			x := vp.Bytes("narrow", 1)
+			vp.Assume(x[0]&1 == 0)
+			body = append(body, x...)
+		}
+	}
+	src := []byte{0x89, 0x49, 0x56, 0x47, 0x02, byte(2 * (1 + len(body))), 0x00}
+	src = append(src, body...)
+	src = append(src, 0x05) // one instruction: set CSEL = 5
+	vp.ReadOnly(src)
+	var d rec.Dest
+	err := decode.Decode(&d, src)
+	vp.Reach("decoded")
+	if len(d.Log) == 0 {
+		vp.Assert(err != nil, "a stream that delivers nothing is an error")
+		return
+	}
+	vb := d.ViewBox
+	fin := func(f float32) bool { return math.Float32bits(f)&0x7f800000 != 0x7f800000 }
+	vp.Assert(vp.All(fin(vb.MinX), fin(vb.MinY), fin(vb.MaxX), fin(vb.MaxY), vb.MinX <= vb.MaxX, vb.MinY <= vb.MaxY),
+		"something was delivered, so the viewBox chunk was valid: finite and not inverted")
+	vp.Assert(vp.And(d.Log[0].Op == rec.OpReset, len(d.Log) == 2), "Reset, then the instruction")
 }
